@@ -130,6 +130,25 @@ Theorem c18_crash_forgets : forall (A : fsapi) (fs : FS A) es1 es2,
           es2 (snd (hrun A hc es2)).
 Proof. exact crash_forgets_lemma. Qed.
 
+(* Several rings on one host: an event addressed to one ring (or to none)
+   leaves every other registered ring exactly as it was; the addressed ring
+   changes by the single-ring step on the host's file system.  So the
+   single-ring theorems above apply to each ring of a host history. *)
+Theorem c18_ring_isolated : forall (A : fsapi) (fs : FS A) es e rid r,
+  let h := fst (hrun A (hinit A fs) es) in
+  get_ring rid (rings h) = Some r ->
+  get_ring rid (rings (fst (hstep A h e))) =
+    match e with
+    | HRing k ev => if k =? rid then Some (fst (fst (rstep A r (hfs h) ev))) else Some r
+    | HDrop k => if k =? rid then None else Some r
+    | HCrash => None
+    | _ => Some r
+    end.
+Proof.
+  intros A fs es e rid r h G. apply ring_isolated_lemma; [|exact G].
+  apply hrun_ridsbelow. intros k x. discriminate.
+Qed.
+
 (* Completeness of a late drain: in any state, once every in-flight entry is
    due, `sync` followed by as many iterations as there are in-flight + ready
    entries yields that many completions and leaves nothing behind - whatever
@@ -199,6 +218,7 @@ Print Assumptions c18_push_full.
 Print Assumptions c18_unsupported_flag.
 Print Assumptions c18_closed_file.
 Print Assumptions c18_crash_forgets.
+Print Assumptions c18_ring_isolated.
 Print Assumptions c18_drain_completes.
 Print Assumptions c18_shuffle_complete.
 Print Assumptions c18_nonvacuous.
